@@ -557,17 +557,50 @@ func main() {
 	}
 	def("expiredRule", "updateExpired: `a.expired = <this>`", guard(exp, "alertState.updateExpired: shape not recognised"))
 
-	// triggered: if a.history[p] == alert.OK { a.firstTriggered = t }
-	var first ast.Expr
-	if fd := funcDecl(alertF, "triggered", "*alertState"); fd != nil {
-		is := ifs(fd.Body.List)
-		if len(fd.Body.List) >= 4 && src(fd.Body.List[0]) == "a.lastTriggered = t" && src(fd.Body.List[1]) == "p := a.idx - 1" &&
-			src(fd.Body.List[2]) == "if p == -1 { p = len(a.history) - 1 }" && len(is) == 2 &&
-			len(is[1].Body.List) == 1 && src(is[1].Body.List[0]) == "a.firstTriggered = t" {
-			first = is[1].Cond
+	// triggered: a.lastTriggered = t; p := idx-1 (wrapping); if <first> { a.firstTriggered = t };
+	//            inhibited := <inhibit>; for _, in := range a.inhibitors { in.Set(inhibited) }
+	var first, inhib ast.Expr
+	if fd := funcDecl(alertF, "triggered", "*alertState"); fd != nil && len(fd.Body.List) == 6 {
+		is, okIf := fd.Body.List[3].(*ast.IfStmt)
+		as, okAs := fd.Body.List[4].(*ast.AssignStmt)
+		if okIf && okAs && src(fd.Body.List[0]) == "a.lastTriggered = t" && src(fd.Body.List[1]) == "p := a.idx - 1" &&
+			src(fd.Body.List[2]) == "if p == -1 { p = len(a.history) - 1 }" && is.Init == nil && is.Else == nil &&
+			len(is.Body.List) == 1 && src(is.Body.List[0]) == "a.firstTriggered = t" &&
+			as.Tok == token.DEFINE && len(as.Lhs) == 1 && src(as.Lhs[0]) == "inhibited" && len(as.Rhs) == 1 &&
+			src(fd.Body.List[5]) == "for _, in := range a.inhibitors { in.Set(inhibited) }" {
+			first, inhib = is.Cond, as.Rhs[0]
 		}
 	}
 	def("firstTriggeredRule", "triggered: `a.lastTriggered = t; p := idx-1 (wrapping); if <this> { a.firstTriggered = t }`", guard(first, "alertState.triggered: shape not recognised"))
+	def("inhibitRule", "triggered: `inhibited := <this>; for _, in := range a.inhibitors { in.Set(inhibited) }` (last statements)", guard(inhib, "alertState.triggered: shape not recognised"))
+
+	// handleEvent drops the event of an inhibited category before anything else; Inhibitor matching is transcribed by hand
+	const isInhSrc = `{ if atomic.LoadInt32(&i.inhibited) == 0 { return false } return i.isMatch(category, tags) }`
+	const isMatchSrc = `{ if category != i.category { return false } for k, v := range i.tags { if tags[k] != v { return false } } return true }`
+	const lookupSrc = `{ l.mu.RLock() defer l.mu.RUnlock() for _, i := range l.inhibitors[category] { if i.IsInhibited(category, tags) { return true } } return false }`
+	const newStateSrc = `inhibitors := make([]*alert.Inhibitor, len(n.a.Inhibitors)) for i, in := range n.a.Inhibitors { tagset := make(models.Tags, len(in.EqualTags)) for _, t := range in.EqualTags { tagset[t] = tags[t] } inhibitor := alert.NewInhibitor(in.Category, tagset) inhibitors[i] = inhibitor n.et.tm.AlertService.AddInhibitor(inhibitor) }`
+	inhF := parse(filepath.Join(repo, "alert", "inhibit.go"))
+	inhOK := false
+	if he := funcDecl(alertF, "handleEvent", "*AlertNode"); he != nil && len(he.Body.List) > 0 {
+		f1 := funcDecl(inhF, "IsInhibited", "*Inhibitor")
+		f2 := funcDecl(inhF, "isMatch", "*Inhibitor")
+		f3 := funcDecl(inhF, "IsInhibited", "*InhibitorLookup")
+		f4 := funcDecl(alertF, "newAlertState", "*AlertNode")
+		inhOK = src(he.Body.List[0]) == "if n.et.tm.AlertService.IsInhibited(event.Data.Category, event.Data.Tags) { n.alertsInhibited.Add(1) return }" &&
+			f1 != nil && src(f1.Body) == isInhSrc && f2 != nil && src(f2.Body) == isMatchSrc && f3 != nil && src(f3.Body) == lookupSrc &&
+			f4 != nil && len(f4.Body.List) == 3 && src(f4.Body.List[0])+" "+src(f4.Body.List[1]) == newStateSrc
+		if !inhOK && os.Getenv("C01_PRINT_SKELETON") != "" && f1 != nil && f2 != nil && f3 != nil && f4 != nil {
+			fmt.Fprintln(os.Stderr, "handleEvent[0]:", src(he.Body.List[0]), "\nIsInhibited:", src(f1.Body), "\nisMatch:", src(f2.Body), "\nlookup:", src(f3.Body), "\nnewAlertState:", src(f4.Body.List[0])+" "+src(f4.Body.List[1]))
+		}
+	}
+	w("/-- handleEvent starts with `if IsInhibited(category, tags) { alertsInhibited++; return }`; Inhibitor.IsInhibited / isMatch,")
+	w("InhibitorLookup.IsInhibited and the inhibitor set-up of newAlertState are, statement by statement, what Kap.Model.C01 transcribes. -/")
+	if inhOK {
+		w("def inhibitionRecognised : Bool := true")
+	} else {
+		w("def inhibitionRecognised : Bool := unknownGuard \"handleEvent / alert/inhibit.go / newAlertState: not the transcribed source\"")
+	}
+	w("")
 
 	// updateFlapping
 	var fOff, fOn ast.Expr
